@@ -12,7 +12,7 @@ From Verif Require Import SrcLane SrcLane_proofs SrcLaneR.
 Import ListNotations.
 Local Open Scope Z_scope.
 
-Definition reachw (c : cfg) (w0 : Z) : gst -> Prop := reachable (fun s => s = init_from w0) (step c).
+Definition reachw (c : cfg) (w0 : Z) (inst : bool) : gst -> Prop := reachable (fun s => s = init_from w0 inst) (step c).
 
 Lemma valid_b_tid t : valid_b t = true -> valid_tid t.
 Proof. unfold valid_b, valid_tid. intros H. apply andb_true_iff in H as [A B]. apply Z.ltb_lt in A, B. lia. Qed.
@@ -31,46 +31,53 @@ Proof.
     exists (ABegin (s_tid a) k). split; assumption.
 Qed.
 
-Lemma pick_step c oo s qs : forall ord seen w t s', pick c oo s qs ord seen w = Some (t, s') -> exists act, step c s act s'.
+Lemma pick_step c oo s qs : forall ord seen w d t s', pick c oo s qs ord seen w d = Some (t, s') -> exists act, step c s act s'.
 Proof.
-  induction ord as [|u r IH]; intros seen w t s' H; destruct w as [|w']; cbn [pick] in H; try discriminate.
+  induction ord as [|u r IH]; intros seen w d t s' H; destruct w as [|w']; destruct d as [|d']; cbn [pick] in H; try discriminate.
   destruct (existsb (Z.eqb u) seen); [eapply IH; exact H|].
   destruct (lookup u qs) as [|a l]; [eapply IH; exact H|].
   destruct (negb oo || is_obs (s_act a)); [|eapply IH; exact H].
   destruct (try_act c s a) as [s1|] eqn:T; [|eapply IH; exact H].
   injection H as _ <-. eapply try_act_step. exact T.
 Qed.
-Lemma pick2_step c s qs ord w t s' : pick2 c s qs ord w = Some (t, s') -> exists act, step c s act s'.
+Lemma pick2_step c s qs ord w : forall depths t s', pick2 c s qs ord w depths = Some (t, s') -> exists act, step c s act s'.
 Proof.
-  unfold pick2. destruct (pick c true s qs ord [] w) as [[t1 s1]|] eqn:P.
-  - intros H. injection H as _ <-. eapply pick_step. exact P.
-  - intros H. eapply pick_step. exact H.
+  induction depths as [|d ds IH]; intros t s' H; cbn [pick2] in H; [discriminate|].
+  destruct (pick c true s qs ord [] w d) as [[t1 s1]|] eqn:P.
+  - injection H as _ <-. eapply pick_step. exact P.
+  - destruct (pick c false s qs ord [] w d) as [[t1 s1]|] eqn:P2.
+    + injection H as _ <-. eapply pick_step. exact P2.
+    + eapply IH. exact H.
 Qed.
 
-Theorem sched_reach c L w0 : forall fuel w s qs ord done ok s' done' rest ok' qs',
-  reachw c w0 s -> sched c L fuel w s qs ord done ok = (s', done', rest, ok', qs') -> reachw c w0 s'.
+Theorem sched_reach c L depths w0 inst : forall fuel w s qs ord done ok s' done' rest ok' qs',
+  reachw c w0 inst s -> sched c L depths fuel w s qs ord done ok = (s', done', rest, ok', qs') -> reachw c w0 inst s'.
 Proof.
   induction fuel as [|f IH]; intros w s qs ord done ok s' done' rest ok' qs' R H; cbn [sched] in H.
   - injection H as <- _ _ _ _. exact R.
   - destruct ord as [|a r]; [injection H as <- _ _ _ _; exact R|].
-    destruct (pick2 c s qs (a :: r) w) as [[t s1]|] eqn:P.
-    + destruct (pick2_step c s qs _ _ _ _ P) as (act & St). eapply IH; [|exact H]. eapply reach_step; eauto.
+    destruct (pick2 c s qs (a :: r) w depths) as [[t s1]|] eqn:P.
+    + destruct (pick2_step c s qs _ _ _ _ _ P) as (act & St). eapply IH; [|exact H]. eapply reach_step; eauto.
     + injection H as <- _ _ _ _. exact R.
 Qed.
 
 (* ---- the start state ---- *)
-Lemma Inv_init_from c w0 : init_word_ok w0 = true -> Inv c (init_from w0).
+Lemma hi_ok_b_true h : hi_ok_b h = true -> hi_ok h.
+Proof. unfold hi_ok_b, hi_ok. rewrite !orb_true_iff, !Z.eqb_eq. tauto. Qed.
+Lemma hi_ok_b_of h : hi_ok h -> hi_ok_b h = true.
+Proof. unfold hi_ok_b, hi_ok. rewrite !orb_true_iff, !Z.eqb_eq. tauto. Qed.
+
+Lemma Inv_init_from c w0 inst : init_word_ok w0 = true -> Inv c (init_from w0 inst).
 Proof.
   unfold init_word_ok. intros H. rewrite !andb_true_iff in H.
   destruct H as [[[[[[[[[[R1 R2] O] Tr] En] Ro] Em] Pb] Wq] Ib] Hi].
-  apply Z.leb_le in R1. apply Z.ltb_lt in R2, Ro. apply Z.eqb_eq in O, Tr, En, Em, Pb, Wq, Ib, Hi.
+  apply Z.leb_le in R1. apply Z.ltb_lt in R2, Ro. apply Z.eqb_eq in O, Tr, En, Em, Pb, Wq, Ib. apply hi_ok_b_true in Hi.
   split.
   - exists (dec w0). unfold init_from.
-    constructor; cbn [st pend cancelled rootq pcs token wakers rwakers latched running merged dropped delivered];
+    constructor; cbn [st pend cancelled installed rootq pcs token wakers rwakers latched running merged dropped delivered];
       try assumption; try reflexivity; try congruence.
     + symmetry. apply enc_dec. lia.
     + apply wfr_dec.
-    + rewrite Hi. reflexivity.
     + rewrite En. split; [discriminate | congruence].
     + unfold free. auto.
     + constructor.
@@ -79,7 +86,7 @@ Proof.
   - intros t. unfold thread_inv, init_from; cbn. repeat split; intros; try discriminate; try contradiction.
 Qed.
 
-Theorem Inv_reachw c w0 s : init_word_ok w0 = true -> reachw c w0 s -> Inv c s.
+Theorem Inv_reachw c w0 inst s : init_word_ok w0 = true -> reachw c w0 inst s -> Inv c s.
 Proof.
   intros H. apply invariant_lift.
   - intros s0 ->. apply Inv_init_from. exact H.
@@ -167,7 +174,7 @@ Proof.
   - apply Z.eqb_eq. exact g_tr0.
   - apply Z.eqb_eq. exact g_em0.
   - apply Z.eqb_eq. exact g_pb0.
-  - apply Z.eqb_eq. exact g_hi0.
+  - apply hi_ok_b_of. exact g_hi0.
   - apply Z.ltb_lt. exact g_role0.
   - apply eqb_iff. rewrite Z.eqb_eq, g_enq0. destruct (token s); split; intros; try discriminate; try congruence.
   - apply Z.eqb_eq. exact g_rootq0.
@@ -205,17 +212,17 @@ Proof.
 Qed.
 
 (* the threads of a replay are the only ones that ever move *)
-Lemma covers_init L w0 : covers L (init_from w0).
+Lemma covers_init L w0 inst : covers L (init_from w0 inst).
 Proof. intros t _. reflexivity. Qed.
 
 (* what a successful replay establishes, in one statement: the final state is a reachable state of the model (from the
    recorded start word), it satisfies the invariant, and the boolean the replay printed could not have been false *)
-Theorem replay_sound c w0 L fuel w qs ord s' done' rest ok' qs' :
+Theorem replay_sound c w0 inst L depths fuel w qs ord s' done' rest ok' qs' :
   init_word_ok w0 = true ->
-  sched c L fuel w (init_from w0) qs ord 0 true = (s', done', rest, ok', qs') ->
-  reachw c w0 s' /\ Inv c s'.
+  sched c L depths fuel w (init_from w0 inst) qs ord 0 true = (s', done', rest, ok', qs') ->
+  reachw c w0 inst s' /\ Inv c s'.
 Proof.
-  intros H0 H. assert (R : reachw c w0 s').
+  intros H0 H. assert (R : reachw c w0 inst s').
   { eapply sched_reach; [|exact H]. apply reach_init. reflexivity. }
-  split; [exact R|]. apply (Inv_reachw c w0 s' H0 R).
+  split; [exact R|]. apply (Inv_reachw c w0 inst s' H0 R).
 Qed.
